@@ -1137,6 +1137,10 @@ def run_c14(ctx):
                  b'-0.0000000000000000000000000000000000001234567890123456789012345', b'12345678901234567890e-5']
         docs = [b'[' + a + b', ' + b + b']' for a in dirt for b in longs] + [b'{"a":' + a + b',"b":' + b + b'}' for a in dirt[:3] for b in longs] + \
                [b'[' + b', '.join(rng.choice(dirt + longs) for _ in range(4)) + b']' for _ in range(300)]
+        # exponents at and around i32::MAX / i32::MIN (de.rs lets the decimal exponent saturate and relies on lexical to add its table bias safely)
+        for e in (2147483647, 2147483646, 2147483300, 2147483297, 2147483648, 4294967296, 99999999999, 2147483647 - 350, 2147483647 - 351):
+            for m in (b'1', b'0.1', b'123456789012345678901234567890', b'1.2345678901234567890123', b'0', b'0.000'):
+                docs += [m + b'e' + str(e).encode(), m + b'e-' + str(e).encode(), b'[' + m + b'E+' + str(e).encode() + b']']
         for src in ('b', 'r1', 's'):
             ctx.violations += judge_c14(ctx, 'fr', docs, {'op': 'pv', 'src': src})
         ctx.violations += [dict(v, what='wrong-value-after-scratch-reuse') for v in judge_c02(ctx, 'fr', docs)]
